@@ -55,6 +55,8 @@ def run(ctx):
   rule_window(ctx)
   # results are indexed by the position of the artifact in the list that was searched: lists of different length raise IndexError (shared with C02)
   rule_invert(ctx)
+  rule_defined(ctx)
+  ctx.expect("R-C18-DEFINED", 150, "every function of the check, key and number-theory modules")
   ctx.expect("R-C18-INVERT", 3, "affine Add and Double + BatchInverse inputs")
   rule_shift(ctx)
   rule_intpow(ctx)
@@ -770,3 +772,47 @@ def rule_sanity(ctx):
     if not ok:
       probs.append("a pair is yielded without k1 * a + k2 * b - w == 0 (mod p) having been tested on that very pair: the consumer's sanity check can fail and raise")
   ctx.record(R, f.where, "yielded pairs satisfy the relation", not probs, "; ".join(sorted(set(probs))) or "%d yield site(s), each dominated by the relation on the yielded values" % len(ys))
+
+
+# ---------------------------------------------------------------------------------------------------------------- definite assignment
+# reads the path-insensitive analysis cannot justify, each confirmed by reading the code (one named variable per entry)
+DEFINED_EXEMPT = {
+    ("ec_util", "EcCurve.BatchMultiplyG", "res"):
+        "bound in the first pass of `for i in range(steps - 1, -1, -1)`; the loop has at least one pass because steps = ceil(bit_length(n) / 8) >= 1 for every "
+        "curve order n > 0 (the nine orders are pinned by R-C11-CURVES)",
+}
+
+
+def defined_scope(short):
+  """which property a module's functions are reported under"""
+  if short == "randomness_tests.rng":
+    return "C20"
+  if short in ("randomness_tests.random_test_suite",):
+    return "C13"
+  if short.startswith("randomness_tests."):
+    return "C12"
+  return "C18"
+
+
+def rule_defined(ctx, R="R-C18-DEFINED", scope="C18"):
+  """'returns a boolean, without raising': a local variable read on a path that has not bound it raises UnboundLocalError.  Definite-assignment
+  analysis (pcstatic.defassign) of every library function - a 'must be bound' dataflow over if / for / while / try / with, with for-else over non-empty
+  literals, first-pass initialisation (`if i == start: x = ...; else: use x`) and repeated identical guards recognised."""
+  from pcstatic import defassign
+  repo = ctx.repo
+  n = 0
+  for m in sorted(repo.modules.values(), key=lambda m_: m_.short):
+    if m.short.startswith("data.") or defined_scope(m.short) != scope:
+      continue
+    for qual, fn in defassign.functions(m.tree):
+      n += 1
+      reps = defassign.analyse(fn)
+      bad = []
+      for name, line, why in reps:
+        if (m.short, qual, name) in DEFINED_EXEMPT:
+          continue
+        bad.append("`%s` at line %d: %s" % (name, line, why))
+      ctx.record(R, "%s:%s" % (m.short, qual), "locals bound before use", not bad, "; ".join(bad) or
+                 ("every read of a local is dominated by a binding" + ("" if not any((m.short, qual, nm) in DEFINED_EXEMPT for nm, _, _ in reps) else
+                  " (confirmed by reading: " + "; ".join("%s - %s" % (nm, DEFINED_EXEMPT[(m.short, qual, nm)]) for nm, _, _ in reps if (m.short, qual, nm) in DEFINED_EXEMPT) + ")")))
+  return n
